@@ -222,6 +222,11 @@ type World struct {
 	// CropAlias renames crops of the rotation to user-defined crop codes (base code -> custom code); the parameter
 	// folder of the scenario gets copies of the base crop's files and table lines under the custom code.
 	CropAlias map[string]string `json:"cropalias,omitempty"`
+	// Alt adds a second input set to the project, selected on the batch line: weather folder wx2 (another series for
+	// the same station code and period, with its own monthly correction file) through WeatherFolder=wx2, and project
+	// files with the extension "alt" (rotation, automatic-management table with other windows, polygon file with other
+	// groundwater levels and irrigation switch) through fileExtension=alt.
+	Alt uint64 `json:"alt,omitempty"`
 }
 
 func (w *World) cropCode(c string) string {
@@ -367,6 +372,7 @@ type Profile struct {
 	GWModes            []string // allowed groundwater sources
 	AllowMeasMid       bool     // measurement overwrite inside the run
 	AllowAuto          bool     // automatic management switches
+	AutoNoDates        bool     // with AllowAuto: only automatic irrigation and fertilisation (sowing and harvest keep the rotation's dates)
 	AllowPTF           bool
 	AllowPeat          bool
 	AllowCSV           bool // csv encodings of soil/rotation/measurement
@@ -783,6 +789,9 @@ func GenWorld(r *RNG, p Profile, pt *ParamTables) *World {
 	c.AutoSow, c.AutoFert, c.AutoIrr, c.AutoHarvest = false, false, false, false
 	if p.AllowAuto {
 		c.AutoSow, c.AutoFert, c.AutoIrr, c.AutoHarvest = r.Bool(0.5), r.Bool(0.5), r.Bool(0.5), r.Bool(0.5)
+		if p.AutoNoDates {
+			c.AutoSow, c.AutoHarvest = false, false
+		}
 	}
 	w.Auto = genAutoLines(r, w)
 	if !w.autoValid() {
